@@ -937,6 +937,23 @@ pub async fn general(sh: Sh, sc: Scenario) {
     for h in dg_handles {
         h.await.ok();
     }
+    // final drain of the datagram queues (nothing is in flight at this quiescent point): whatever reached the endpoint
+    // and was neither received before nor is handed out now was dropped by the endpoint
+    for (ep, m) in [(0u8, &e0.mux), (1u8, &e1.mux)] {
+        // (a real await with a timeout, not now_or_never: tokio's cooperative budget makes a ready channel return Pending
+        // after 128 operations in one poll, which would end the drain early)
+        let theirs: Vec<DgPlan> = sc.dgrams.iter().filter(|d| d.from != ep).cloned().collect();
+        while let Ok(Ok(d)) = tokio::time::timeout(Duration::from_millis(1), m.get_datagram()).await {
+            match theirs.iter().find(|p| p.flow_id == d.flow_id && p.port == d.target_port) {
+                Some(p) => {
+                    let ok = d.target_host.as_ref() == dg_host(seed, p.id, p.host_len).as_slice() && d.data.as_ref() == dg_payload(seed, p.id, p.payload_len).as_slice();
+                    sh.api(ep, 0, Api::DgRecv { id: p.id, fields_ok: ok });
+                }
+                None => sh.api(ep, 0, Api::DgRecv { id: u64::MAX, fields_ok: false }),
+            }
+        }
+        sh.api(ep, 0, Api::Note("dg-drained".into()));
+    }
     let m0_unique = Arc::strong_count(&e0.mux) == 1 && Arc::strong_count(&e1.mux) == 1;
     if !m0_unique {
         sh.api(0, 0, Api::Note("HARNESS: mux handle still shared at teardown".into()));
